@@ -1,10 +1,41 @@
-(* C13 — property theorems.  Only statements closed by `exact <lemma>` and the
-   Print Assumptions that the check collects. *)
+(* C13 — property theorems.  Only statements closed by `exact <lemma>` (or a
+   short intros/exact wrapper) and the Print Assumptions that the check collects.
+
+   Common hypotheses (the guards under which the Python code is used):
+     1 <= ns, 1 <= chunk size, 0 <= trough_offset <= spike_length_samples,
+     trough_offset <= chunk size (or a single chunk), spike train sorted by time,
+     0 <= max_wf, peak channels on the probe, and `choose` (rng.choice) returns
+     k distinct members of its candidates.  V (sample values) and src (the
+     recording) are arbitrary. *)
 From Coq Require Import ZArith List Bool Lia Permutation Sorted.
 From IBL.lib Require Import PyInt.
 From IBL.C13 Require Import Model Proofs.
 Import ListNotations.
 Open Scope Z_scope.
+
+Definition choose_ok (choose : Z -> list Z -> Z -> list Z) : Prop :=
+  forall i a k, 0 <= k <= zlen a -> NoDup a ->
+    length (choose i a k) = Z.to_nat k /\ NoDup (choose i a k) /\ incl (choose i a k) a.
+
+Definition guards (P : cfg) : Prop :=
+  1 <= c_ns P /\ 1 <= c_size P /\ 0 <= c_to P <= c_L P /\
+  (c_to P <= c_size P \/ nchunks P = 1) /\
+  StronglySorted Z.le (map sp_sample (c_spikes P)) /\ 0 <= c_maxwf P /\
+  Forall (fun s => 0 <= sp_chan s < zlen (c_geom P)) (c_spikes P).
+
+(* make_channel_index: row c lists, in ascending order, exactly the channels whose
+   squared distance to c is within the squared radius, then pad_val, and every
+   row has n_nbors columns — any geometry, radius, pad value. *)
+Theorem C13_channel_index_rows : forall g r2n r2d padv c, 0 <= c < zlen g ->
+  let row := znth [] (channel_index g r2n r2d padv) c in
+  let nb := nbr_row g r2n r2d c in
+  row = nb ++ repeat padv (Z.to_nat (n_nbors g r2n r2d - zlen nb)) /\
+  zlen row = n_nbors g r2n r2d /\
+  StronglySorted Z.lt nb /\
+  (forall j, In j nb <-> 0 <= j < zlen g /\
+     dist2 (znth (0, 0) g c) (znth (0, 0) g j) * r2d <= r2n).
+Proof. exact channel_index_row. Qed.
+Print Assumptions C13_channel_index_rows.
 
 (* The searchsorted slices of the chunks [s0_i, s1_i) partition the rows of the
    table (every row goes to exactly one chunk job, in order), for every
@@ -15,3 +46,132 @@ Theorem C13_chunks_partition_rows : forall (P : cfg) (tb : list row),
   concat (map (slice_rows P tb) (zrange (Z.to_nat (nchunks P)))) = tb.
 Proof. intros P tb H1 H2. exact (slices_partition P H1 H2 tb). Qed.
 Print Assumptions C13_chunks_partition_rows.
+
+(* Different table rows are written to different memmap rows (waveform_index is
+   injective), so the row sets written by different chunk jobs are disjoint. *)
+Theorem C13_write_rows_distinct : forall choose P, guards P -> choose_ok choose ->
+  NoDup (map (fun r => Z.to_nat (r_wfi r)) (table choose P)) /\
+  Forall (fun r => 0 <= r_wfi r < zlen (table choose P)) (table choose P).
+Proof.
+  intros choose P (H1 & H2 & H3 & H4 & H5 & H6 & H7) Hc. split.
+  - pose proof (table_keys_nodup unit (fun _ _ => tt) choose P H1 H2 H3 H4 H5 Hc H6 H7) as H.
+    rewrite map_map in H. exact H.
+  - rewrite Forall_forall. intros r Hr.
+    pose proof (sorted_perm choose P H1 H2 H3 H4 H5 Hc H6 H7) as Hp.
+    apply (Permutation_in _ (Permutation_sym Hp)) in Hr.
+    destruct (In_nth _ _ drow Hr) as [k [Hk <-]]. rewrite (Permutation_length Hp) in Hk.
+    rewrite (sorted_row_wfi choose P H1 H2 H3 H4 H5 Hc H6 H7 k Hk).
+    unfold zlen. lia.
+Qed.
+Print Assumptions C13_write_rows_distinct.
+
+(* Window correctness and row agreement.  No job raises; after the final sort
+   row r of the table has waveform_index = r, is a spike strictly inside the
+   margins with its peak on the probe, and row r of the traces is the window of
+   that spike: cell (j, t) = source[nbr(peak)[j]][sample - trough_offset + t],
+   NaN (None) where the neighbour is the pad value nc; the sample index read is
+   inside the recording. *)
+Theorem C13_window_correct : forall V (src : Z -> Z -> V) choose P, guards P -> choose_ok choose ->
+  forall r, (r < length (table choose P))%nat ->
+  exists mem, traces V src choose P = Some mem /\ length mem = length (table choose P) /\
+    let row := nth r (sorted_table choose P) drow in
+    r_wfi row = Z.of_nat r /\
+    c_to P < r_sample row < c_ns P - (c_L P - c_to P) /\ 0 <= r_chan row < zlen (c_geom P) /\
+    exists w, nth r mem None = Some w /\
+      forall j t, (j < length (znth [] (cidx P) (r_chan row)))%nat -> 0 <= t < c_L P ->
+        0 <= r_sample row - c_to P + t < c_ns P /\
+        nth (Z.to_nat t) (nth j w []) None =
+        let ch := nth j (znth [] (cidx P) (r_chan row)) 0 in
+        if ch =? c_nc P then None else Some (src ch (r_sample row - c_to P + t)).
+Proof.
+  intros V src choose P (H1 & H2 & H3 & H4 & H5 & H6 & H7) Hc r Hr.
+  destruct (traces_row V src choose P H1 H2 H3 H4 H5 Hc H6 H7 r Hr) as [mem [Ht [Hl [Hw [[Hv Hch] Hn]]]]].
+  exists mem. split; [exact Ht|]. split; [exact Hl|]. cbv zeta.
+  split; [exact Hw|]. split; [exact Hv|]. split; [exact Hch|].
+  eexists. split; [exact Hn|]. intros j t Hj Htt. split; [lia|].
+  now apply window_cell.
+Qed.
+Print Assumptions C13_window_correct.
+
+(* The final file is the same for every order / interleaving of the individual
+   row writes of all chunk jobs (hence for every n_jobs). *)
+Theorem C13_writes_commute : forall V (src : Z -> Z -> V) choose P, guards P -> choose_ok choose ->
+  forall sched, Permutation sched (map (canon_write V src P) (table choose P)) ->
+  Some (apply_writes V sched (mem0 V (table choose P))) = traces V src choose P.
+Proof.
+  intros V src choose P (H1 & H2 & H3 & H4 & H5 & H6 & H7) Hc sched.
+  exact (schedule_independent V src choose P H1 H2 H3 H4 H5 Hc H6 H7 sched).
+Qed.
+Print Assumptions C13_writes_commute.
+
+(* ... and for every chunk size >= trough_offset (the table does not depend on it). *)
+Theorem C13_chunk_size_independent : forall V (src : Z -> Z -> V) choose P sz sz',
+  1 <= c_ns P -> 0 <= c_to P <= c_L P -> 1 <= sz -> 1 <= sz' -> c_to P <= sz -> c_to P <= sz' ->
+  StronglySorted Z.le (map sp_sample (c_spikes P)) -> choose_ok choose ->
+  0 <= c_maxwf P -> Forall (fun s => 0 <= sp_chan s < zlen (c_geom P)) (c_spikes P) ->
+  traces V src choose (set_size P sz) = traces V src choose (set_size P sz') /\
+  table choose (set_size P sz) = table choose (set_size P sz').
+Proof.
+  intros V src choose P sz sz' H1 H2 H3 H4 H5 H6 H7 H8 H9 H10. split; [|reflexivity].
+  exact (chunk_size_independent V src choose P sz sz' H1 H2 H3 H4 H5 H6 H7 H8 H9 H10).
+Qed.
+Print Assumptions C13_chunk_size_independent.
+
+(* The channel-map file: row r is the neighbourhood of the peak channel of table row r. *)
+Theorem C13_chan_map_rows : forall choose P, guards P -> choose_ok choose ->
+  zlen (c_geom P) <= 32768 ->
+  chan_map choose P = Some (map (fun r => znth [] (cidx P) (r_chan r)) (sorted_table choose P)).
+Proof.
+  intros choose P (H1 & H2 & H3 & H4 & H5 & H6 & H7) Hc Hn.
+  apply chan_map_canon; [exact Hn|].
+  exact (table_valid choose P H1 H2 H3 H4 H5 Hc H6 H7).
+Qed.
+Print Assumptions C13_chan_map_rows.
+
+(* Unit counts: each unit receives min(max_wf, #valid spikes of the unit) rows, and
+   the rows of the table are distinct valid spikes (strictly increasing spike indices,
+   each strictly inside the margins); the table is the selected spikes in time order. *)
+Theorem C13_unit_counts : forall choose P,
+  StronglySorted Z.le (map sp_sample (c_spikes P)) -> choose_ok choose -> 0 <= c_maxwf P ->
+  (forall u, In u (unit_ids P) ->
+     count_if (fun c => c =? u) (map r_cluster (table choose P)) =
+     Z.min (c_maxwf P) (zlen (unit_spikeidx P u))) /\
+  (forall u p, In p (unit_spikeidx P u) <->
+     0 <= p < zlen (c_spikes P) /\ sp_cluster (znth dspike (c_spikes P) p) = u /\
+     c_to P < sp_sample (znth dspike (c_spikes P) p) < c_ns P - (c_L P - c_to P)) /\
+  StronglySorted Z.lt (wf_idx choose P) /\
+  (forall x, In x (wf_idx choose P) -> 0 <= x < zlen (c_spikes P) /\
+     c_to P < sp_sample (znth dspike (c_spikes P) x) < c_ns P - (c_L P - c_to P)) /\
+  map (fun r => (r_sample r, r_cluster r, r_chan r)) (table choose P) =
+  map (znth dspike (c_spikes P)) (wf_idx choose P).
+Proof.
+  intros choose P Hs Hc Hm. split; [|split; [|split; [|split]]].
+  - exact (unit_counts choose P Hs Hc Hm).
+  - intros u p. rewrite (usi_in choose P Hs Hc Hm u p). unfold allowed. rewrite andb_true_iff, !Z.ltb_lt. tauto.
+  - exact (wf_idx_increasing choose P Hs Hc Hm).
+  - intros x Hx. destruct (wf_idx_valid choose P Hs Hc Hm x Hx) as [Hr Ha].
+    unfold allowed in Ha. rewrite andb_true_iff, !Z.ltb_lt in Ha. tauto.
+  - exact (table_rows_are_spikes choose P Hs Hc Hm).
+Qed.
+Print Assumptions C13_unit_counts.
+
+(* ---- the hypotheses are satisfiable on a non-trivial concrete input ---- *)
+Definition exP : cfg :=
+  mkCfg 1000 4 3 8 2 300 40000 1 [(0, 0); (0, 150); (0, 300); (0, 450)]
+        [(2, 1, 0); (4, 1, 1); (299, 2, 3); (300, 1, 2); (300, 2, 0); (301, 1, 3); (600, 2, 1); (996, 2, 2)].
+(* a deterministic stand-in for rng.choice: the last k candidates *)
+Definition ex_choose (_ : Z) (a : list Z) (k : Z) : list Z := skipn (length a - Z.to_nat k) a.
+
+Example ex_table : map (fun r => (r_sample r, r_cluster r, r_wfi r)) (sorted_table ex_choose exP) =
+  [(300, 1, 0); (301, 1, 1); (300, 2, 2); (600, 2, 3)].
+Proof. vm_compute. reflexivity. Qed.
+
+Example ex_traces : option_map (map (option_map (fun w => nth 0 w []))) (traces Z (fun ch s => 10 * s + ch) ex_choose exP) =
+  Some [Some [Some 2971; Some 2981; Some 2991; Some 3001; Some 3011; Some 3021; Some 3031; Some 3041];
+        Some [Some 2982; Some 2992; Some 3002; Some 3012; Some 3022; Some 3032; Some 3042; Some 3052];
+        Some [Some 2970; Some 2980; Some 2990; Some 3000; Some 3010; Some 3020; Some 3030; Some 3040];
+        Some [Some 5970; Some 5980; Some 5990; Some 6000; Some 6010; Some 6020; Some 6030; Some 6040]].
+Proof. vm_compute. reflexivity. Qed.
+
+Example ex_chan_index : channel_index (c_geom exP) 40000 1 4 = [[0; 1; 4]; [0; 1; 2]; [1; 2; 3]; [2; 3; 4]].
+Proof. vm_compute. reflexivity. Qed.
